@@ -78,6 +78,19 @@ Theorem C12_failure_prefix : forall a n buf,
   (k = 0%nat \/ (a + N.of_nat k) mod page_size = 0).
 Proof. exact (read_failure page_size get_page sh page_shift_small page_size_pow2 pages_full). Qed.
 
+(** [C12_read_exact], [C12_success_full] and [C12_failure_prefix] include reads
+    that end exactly at 2^64 ([a + n = W]): the model's address wraps to 0
+    after the last copy ([wadd]) and is not used again.  Spelled out for a
+    range that is entirely present: the read succeeds in full *)
+Theorem C12_read_to_top_of_address_space : forall a n buf,
+  a + n = W -> length buf = N.to_nat n ->
+  (forall i, (i < N.to_nat n)%nat -> mem (a + N.of_nat i) <> None) ->
+  exists r, read_locked (S (N.to_nat n)) a n buf = RDone r /\
+    rr_status r = KDUMP_OK /\ rr_plength r = n /\
+    rr_buffer r = prefix_bytes a (N.to_nat n) /\
+    forall i, (i < N.to_nat n)%nat -> nth_error (rr_buffer r) i = mem (a + N.of_nat i).
+Proof. exact (read_top page_size get_page sh page_shift_small page_size_pow2 pages_full). Qed.
+
 (** a zero-length read succeeds without asking for any page *)
 Theorem C12_zero_length : forall a buf,
   read_locked 1 a 0 buf =
@@ -125,6 +138,7 @@ End C12.
 Print Assumptions C12_read_exact.
 Print Assumptions C12_success_full.
 Print Assumptions C12_failure_prefix.
+Print Assumptions C12_read_to_top_of_address_space.
 Print Assumptions C12_zero_length.
 Print Assumptions C12_string_exact.
 Print Assumptions C12_string_found.
@@ -139,6 +153,18 @@ Definition demo_pages (a : N) : gp :=
 
 Definition demo_nonul (a : N) : gp :=
   if a =? 0 then PageOk [1; 2; 3; 4] else PageErr 3%Z.
+
+(** the last two 4-byte pages of the address space *)
+Definition demo_top (a : N) : gp :=
+  if a =? 18446744073709551608 then PageOk [1; 2; 3; 4]
+  else if a =? 18446744073709551612 then PageOk [5; 6; 7; 8]
+  else PageErr 3%Z.
+
+Example C12_top_nonvacuous :
+  (match read_locked 4 demo_top 7 18446744073709551610 6 (repeat 165 6) with
+   | RDone r => Some (rr_status r, rr_plength r, rr_buffer r)
+   | _ => None end) = Some (0%Z, 6, [3; 4; 5; 6; 7; 8]).
+Proof. vm_compute. reflexivity. Qed.
 
 (** defect 12 of the pinned tree: the partial string is not freed when a
     later page fails *)
